@@ -325,10 +325,11 @@ func checkLeafrefVerdict(fatalf func(string, ...interface{}), rec *ev.Rec, v *mo
 		{"no options", nil},
 		{"&LeafrefOptions{IgnoreMissingData:false}", []ygot.ValidationOption{&ytypes.LeafrefOptions{}}},
 		{"&LeafrefOptions{IgnoreMissingData:true}", []ygot.ValidationOption{ignoreMissing()}},
+		{"&LeafrefOptions{IgnoreMissingData:true, Log:true}", []ygot.ValidationOption{&ytypes.LeafrefOptions{IgnoreMissingData: true, Log: true}}},
 	}
 	for i, mode := range modes {
 		err := validate(build(v, m, false), mode.opts...)
-		wantErr := len(dangling) > 0 && i != 2
+		wantErr := len(dangling) > 0 && i < 2
 		switch {
 		case err == nil && !wantErr:
 		case err == nil && wantErr:
@@ -345,7 +346,7 @@ func checkLeafrefVerdict(fatalf func(string, ...interface{}), rec *ev.Rec, v *mo
 				mode.name, len(dangling), v.Name, what, strings.Join(dangling, "\n  "), m.Dump())
 		case err != nil && !wantErr:
 			why := "every leafref is satisfied"
-			if i == 2 {
+			if i >= 2 {
 				why = "IgnoreMissingData is set"
 			}
 			fatalf("Validate(%s) returns an error although %s (variant %s, %s; reference dangling set %v):\n%v\ntree:\n%s",
